@@ -175,6 +175,8 @@ def main(tier):
     rep.attempt(bounds.check, rep, {'crc', 'crc_copy', 'adler'}, 'CRC', 30)
     import guardloop
     rep.attempt(guardloop.check, rep, 'ALL', r'.', 55)
+    import c14, llir
+    rep.attempt(c14.check_stored_flush_reset, rep, llir.library('default'))      # a history that survives a full flush is read through next_in - dist in front of the next input buffer
     rep.analysed.update(asm_units=len(units), kernels=len(res), families=sorted({i['fam']['family'] for i in res.values()}),
                         memory_operands=sum(len(i['accesses']) for i in res.values()))
     return rep.finish()
